@@ -294,7 +294,14 @@ func (g *schemaGenerator) generateDeclaredType(t *schemas.Type, scope nameScope)
 	if isNamedType(theType) {
 		// Don't declare named types under a new name.
 		delete(g.output.declsBySchema, t)
-		delete(g.output.declsByName, decl.Name)
+
+		if g.output.declsByName[decl.Name] == &decl {
+			delete(g.output.declsByName, decl.Name)
+		}
+
+		if nt, ok := theType.(*codegen.NamedType); ok && nt.Decl != nil {
+			g.output.declsBySchema[t] = nt.Decl
+		}
 
 		return theType, nil
 	}
